@@ -321,6 +321,12 @@ class BatchWorld:
             app[fe.AppKeys.QOB_JAR_RESOLUTION_CACHE] = TimeLimitedMaxSizeCache(
                 resolve_qob_jar_url, int(1e10), 100, 'qob')
             app['sim_on_500'] = lambda method, path, e: self.fe_500.append((method, path, repr(e)[:300]))
+            # front_end.auth is a module global: its session cache would otherwise carry entries stamped with a
+            # previous run's simulated times into this run (worker processes execute many runs)
+            try:
+                fe.auth._userdata_cache = type(fe.auth)()._userdata_cache
+            except Exception:  # pylint: disable=broad-except
+                pass
             app.freeze()
             self.fe_app = app
             svc.handler = aiohttp_app_handler(app)
